@@ -269,6 +269,7 @@ def check_text(case, text=None):
 
 def eval_case(case):
     """oracle on the REAL code: (ok, observed, expected); observed['class'] names the violation class"""
+    if case.get('kind') == 'token-class': return check_class(case)
     ok, obs, exp = check_text(case)
     if not ok and gen.has_wide(case['nl']) and obs.get('stage') == 'function':
         # counterfactual ground truth: every wide gate read as the 4-input primitive of its first four pins (what SimOps schedules)
@@ -1036,6 +1037,132 @@ def text_stream(ck, case, n_mut, real=None):
         ck.case(key=('text', fmt, t), nontrivial=False, tag=[f'text-edit:{op.split("+")[0]}:{st}', 'stream:text'])
 
 
+
+# ---------------------------------------------------------------------------------------------- token classes (audit finding 10(a))
+def respell_const(rng, a):
+    """another member of the class of the sized constant ['k', w, base, digits]: same width, same value modulo 2**w
+    (C11.const_spelling_class); None when the digits are outside the base (the class theorem needs both inside the guard)"""
+    w, b, digits = a[1], a[2], a[3]
+    base = {'b': 2, 'd': 10, 'h': 16}[b.lower()]
+    try:
+        v = int(digits, base)
+    except ValueError:
+        return None
+    v = v % (1 << w) if w > 0 else v
+    if rng.random() < 0.2: v += rng.choice([1, 2, 5]) << w               # bits above the width are cut
+    nb = rng.choice(['b', 'B', 'd', 'D', 'h', 'H'])
+    nd = format(v, 'b') if nb in 'bB' else str(v) if nb in 'dD' else format(v, rng.choice(['x', 'X']))
+    nd = '0' * rng.choice([0, 0, 1, 3]) + nd
+    return ['k', w, nb, nd]
+
+
+def respell_verilog(rng, ast):
+    """(text, ast') — the statement list printed with a RANDOM MEMBER OF ITS SPELLING CLASS for every token: plain names plain or as
+    escaped identifiers (any of the four terminators), range numbers and constant widths with leading zeros, sized constants in
+    another base / letter case / digit string of the same value (ast' records the new constant spellings; everything else is ast)"""
+    tags = set()
+
+    def nm(n):
+        if gen.is_plain(n) and rng.random() < 0.5: return n
+        if gen.is_plain(n): tags.add('escaped-plain-name')
+        return '\\' + n + rng.choice([' ', ' ', '\t', '\n', '\r\n', ' \r\n'])
+
+    def num(k):
+        z = rng.choice([0, 0, 1, 2])
+        if z: tags.add('number-leading-zeros')
+        return '0' * z + str(k)
+
+    def sel(a):
+        if a[0] == 'n': return nm(a[1]), a
+        if a[0] == 'b':
+            return (f'{nm(a[1])}[{num(a[2])}]' if a[3] is None else f'{nm(a[1])}[{num(a[2])}:{num(a[3])}]'), a
+        if a[0] == 'k':
+            a2 = respell_const(rng, a) if rng.random() < 0.8 else None
+            if a2 is None: a2 = a
+            else: tags.add(f'const:{a[2]}->{a2[2]}')
+            txt = f"{'0' * rng.choice([0, 0, 1])}{a2[1]}'{a2[2]}{a2[3]}"
+            if rng.random() < 0.15: txt = '\\' + txt + ' '; tags.add('escaped-constant')
+            return txt, a2
+        parts = [sel(x) for x in a[1]]
+        return '{' + ', '.join(t for t, _ in parts) + '}', ['c', [x for _, x in parts]]
+    out = [f"module {nm(ast['name'])} ({', '.join(nm(p) for p in ast['ports'])});"]
+    stmts2 = []
+    for s in ast['stmts']:
+        if s[0] == 'decl':
+            r = '' if s[2] is None else f'[{num(s[2][0])}:{num(s[2][1])}] ' if len(s[2]) == 2 else f'[{num(s[2][0])}] '
+            out.append(f"  {s[1]} {r}{', '.join(nm(n) for n in s[3])};"); stmts2.append(s)
+        elif s[0] == 'inst':
+            pins, past = [], []
+            for pn, a in s[3]:
+                if a is None: pins.append(f'.{nm(pn)}()'); past.append([pn, None])
+                else:
+                    t, a2 = sel(a); pins.append(f'.{nm(pn)}({t})'); past.append([pn, a2])
+            ty = s[1] if gen.is_plain(s[1]) and rng.random() < 0.7 else '\\' + s[1] + ' '
+            out.append(f"  {ty} {nm(s[2])} ({', '.join(pins)});"); stmts2.append(['inst', s[1], s[2], past])
+        elif s[0] == 'assign':
+            t1, a1 = sel(s[1]); t2, a2 = sel(s[2])
+            out.append(f'  assign {t1} = {t2};'); stmts2.append(['assign', a1, a2])
+        else:
+            out.append('  tri unused_tri;'); stmts2.append(s)
+    out.append('endmodule')
+    return '\n'.join(out) + '\n', {'name': ast['name'], 'ports': list(ast['ports']), 'stmts': stmts2}, sorted(tags)
+
+
+def respell_bench(rng, ast):
+    """the statement list with every interface keyword in a random one of its four spellings (C11.bench_text_keyword_class:
+    `interface` does not distinguish INPUT from OUTPUT)"""
+    out, tags = [], set()
+    for s in ast:
+        if s[0] == 'intf':
+            k = rng.choice(['INPUT', 'input', 'OUTPUT', 'output']); tags.add('keyword:' + k)
+            out.append(f"{k}{rng.choice(['', ' '])}({', '.join(s[1])})")
+        else:
+            out.append(f"{s[1]} = {s[2]}({', '.join(s[3])})")
+    return '\n'.join(out) + rng.choice(['\n', '', '\n# end']), list(ast), sorted(tags)
+
+
+def check_class(case):
+    """oracle of the token classes on the REAL code: the respelled text (`text`) builds the same circuit as the text it was
+    respelled from (`class_of`) — node list, line list with pins, io_nodes —, or both raise"""
+    def build(text):
+        try:
+            return real_dump(parse_real(dict(case, text=text)))
+        except Exception as ex:
+            return ('raise',)
+    a, b = build(case['class_of']), build(case['text'])
+    if a == b or (a[0] == 'raise' and b[0] == 'raise'): return True, None, None
+    what = 'raises' if b[0] == 'raise' else 'builds although the original raises' if a[0] == 'raise' else \
+        next(n for n, x, y in zip(('io_nodes', 'node list', 'line list'), a, b) if x != y)
+    return False, {'stage': 'token-class', 'class': 'token-class', 'respelled text': what, 'text': case['text'][:600]}, \
+        {'same circuit as': case['class_of'][:600]}
+
+
+def class_stream(ck, case, c):
+    """token classes: (i) correspondence — the text model reads the respelled text as lark does, to the respelled statement list,
+    and the circuit built from the model's own parse is the real one (`text_check`); (ii) oracle — the REAL parser builds the same
+    circuit from the respelled text as from the original text (a spelling the real code treats differently is a violation of C11
+    with the text as replay)"""
+    fmt = case['fmt']
+    text2, ast2, tags = respell_verilog(ck.rng, case['ast']) if fmt == 'verilog' else respell_bench(ck.rng, case['ast'])
+    case2 = {k: v for k, v in case.items() if not k.startswith('_') and k not in ('nl',)}
+    case2.update(text=text2, ast=ast2, kind='token-class', class_of=case['text'])
+    try:
+        c2 = parse_real(case2)
+    except Exception:
+        c2 = None
+    st = text_check(ck, fmt, text2, case['tlib'], case['bf'], 'token-class', expect_ast=ast2, real=(c2,))
+    ck.hist[f'token-class:{fmt}:{st}'] += 1
+    ok = (c is None and c2 is None) or (c is not None and c2 is not None and real_dump(c) == real_dump(c2))
+    ck.case(key=('token-class', fmt, text2), nontrivial=bool(tags) and c2 is not None,
+            tag=['stream:token-class'] + [f'token-class:{fmt}:{t}' for t in tags])
+    if not ok:
+        ck.hist['violation:token-class'] += 1
+        if ck.hist['violation:token-class'] <= 2:
+            _, obs, exp = check_class(case2)
+            ck.violation('token-class', 'a different spelling of the same tokens (escaped identifier, leading zeros, base / case of a sized '
+                         'constant, keyword spelling) changes the parsed circuit', case2, obs or {'stage': 'token-class'}, exp)
+
+
 class Unsupported(Exception):
     pass
 
@@ -1186,7 +1313,9 @@ def run_netlist(ck, nl, cases, notes):
         else:
             parsed_sem_verilog(ck, case, c)
             library_sem(ck, case, c)
-        if case['fmt'] in TEXT_FMTS: text_stream(ck, case, 2 if case['fmt'] == 'verilog' else 3, real=(c,))
+        if case['fmt'] in TEXT_FMTS:
+            text_stream(ck, case, 2 if case['fmt'] == 'verilog' else 3, real=(c,))
+            class_stream(ck, case, c)
         try:
             ok, obs, exp = eval_case(case)
         except Exception as ex:
